@@ -24,7 +24,7 @@ CLAUSES = {
     "C13": ["C13_wid"],
     "C14": ["C14_startgate", "C14_siggate", "C14_events", "C14_killsent", "C14_own"],
     "C15": ["C15_dir", "C15_views", "C15_addrm", "C15_reach"],
-    "C18": ["C18_confine", "C18_exact", "C18_killsig"],
+    "C18": ["C18_confine", "C18_exact", "C18_killsig", "C18_stopsig"],
     "C19": ["C19_order", "C19_pace", "C19_auto"],
     "C08": ["C08_done"],
     "C11": ["C11_unchanged", "C10_refuse"],
